@@ -45,7 +45,7 @@ CHAINS = [
 
 def canon(caption):
     nodes = []
-    for n in caption.nodes:
+    for n in (getattr(caption, "nodes", None) or []):
         if n.type_ == 1:
             nodes.append(("t", n.content))
         elif n.type_ == 3:
